@@ -147,7 +147,10 @@ class World:
         res = {self.resource_attr: lvl}
         v = self.value(t, lvl)
         if self.spec.get("metrics"):
-            for name, x in zip(self.spec["metrics"], v):
+            pairs = list(zip(self.spec["metrics"], v))
+            if self.spec.get("reverse_metric_keys"):
+                pairs = pairs[::-1]      # the job writes its objectives in another order than the scheduler lists them
+            for name, x in pairs:
                 res[name] = x
         else:
             res[self.metric] = v
